@@ -283,7 +283,7 @@ func TestC16(t *testing.T) {
 
 func TestC04(t *testing.T) {
 	runFocused(t, "C04", histGen+", all with MOVES_HISTORY_POST_COMMIT_EFFECTIVE_VOLUMES=SYNC and many back-dated / tied / future timestamps; postCommitEffectiveVolumes in write responses and in every later listing (they must move when a transaction is inserted in the past) are compared with the fold by (effective date, insertion order); non-trivial = >= 2 back-dated transactions and >= 4 commits; distinct = by operation history",
-		HistOpts{Features: FullFeatures, Steps: 25, Scripts: false, Reverts: true, Reads: true, FinalReads: true, PITReads: true, MaxPostings: 4}, 150, 500,
+		HistOpts{Features: FullFeatures, Steps: 25, Scripts: false, Reverts: true, Reads: true, FinalReads: true, PITReads: true, MaxPostings: 4, SecondLedger: true}, 150, 500,
 		func(s *HistorySummary) bool { return s.BackDated >= 2 && s.Commits >= 4 },
 		"the two PL/pgSQL triggers (set_effective_volumes, update_effective_volumes) are native ports inside the stand-in, installed only when the real DefaultBucket.AddLedger issues their CREATE TRIGGER; what is decided for real is the Go side: moves construction, ComputePostCommitEffectiveVolumes, the expand=effectiveVolumes SQL")
 }
